@@ -80,11 +80,11 @@ type Dispatch struct {
 // unique package-level slice of func(*T) int.
 func FindDispatchVar(p *core.Program) (string, error) {
 	isDisp := func(t types.Type) bool {
-		s, ok := t.Underlying().(*types.Slice)
+		el, ok := seqElem(t)
 		if !ok {
 			return false
 		}
-		sig, ok := s.Elem().Underlying().(*types.Signature)
+		sig, ok := el.Underlying().(*types.Signature)
 		return ok && sig.Params().Len() == 1 && sig.Results().Len() == 1
 	}
 	if e, v := varInit(p, "byteParsers"); e != nil && v != nil && isDisp(v.Type()) {
